@@ -56,11 +56,11 @@ type st struct {
 	elapsed int64
 }
 
-func newState() *st {
+func newState(custom bool) *st {
 	s := &st{}
 	s.enforce = zz.Bool("cfg.enforcePAR")
 	parPrefix = defaultPrefix
-	if zz.Thorough() && zz.Choice("cfg.prefix", 2) == 1 {
+	if custom {
 		parPrefix = customPrefix
 	}
 	s.w = world.New(world.Options{
@@ -272,15 +272,16 @@ func (s *st) use(tag string, kind int) {
 	zz.Assert(ar.GetState() == p.state, tag+": state is the pushed one")
 	zz.Assert(strings.Join(ar.GetRequestedScopes(), " ") == strings.Join(scopesOf(p.scope), " "), tag+": requested scopes are the pushed ones")
 	zz.Assert(strings.Join(ar.GetRequestedAudience(), " ") == p.aud, tag+": requested audience is the pushed one")
-	for _, k := range []string{"audience", "client_id", "client_secret", "redirect_uri", "response_type", "scope", "state"} {
+	// (client credentials are not authorization parameters: whether they are kept is C20's business)
+	for _, k := range []string{"audience", "client_id", "redirect_uri", "response_type", "scope", "state"} {
 		if v, ok := p.form[k]; ok { // fixed order: map iteration differs between the engine and a native run
 			zz.Assert(ar.GetRequestForm().Get(k) == v[0], tag+": pushed form value "+k+" is not overridden by the query")
 		}
 	}
 }
 
-func run(uses int, second bool) {
-	s := newState()
+func run(uses int, second, custom bool) {
+	s := newState(custom)
 	if second {
 		zz.Assume(s.push("c2", false) != nil)
 	}
@@ -294,7 +295,11 @@ func run(uses int, second bool) {
 		if i > 0 {
 			tag = "use2"
 		}
-		s.use(tag, zz.Choice("use.kind", len(s.pushes)+3))
+		if i < 2 {
+			s.use(tag, zz.Choice("use.kind", len(s.pushes)+3))
+		} else {
+			s.use(tag, zz.Choice("use.kind", len(s.pushes))) // third use: one of the returned URIs again
+		}
 	}
 	zz.Cover("history:done", true)
 }
@@ -302,8 +307,14 @@ func run(uses int, second bool) {
 // ZZ_C17_par: one push, two uses (quick); a second push by another client and three uses (thorough).
 func ZZ_C17_par() {
 	if zz.Thorough() {
-		run(3, true)
+		run(3, true, false)
 	} else {
-		run(2, false)
+		run(2, false, false)
 	}
+}
+
+// ZZ_C17_prefix_T (thorough only): the same history under a custom request_uri prefix; the default
+// prefix is then a foreign one.
+func ZZ_C17_prefix_T() {
+	run(2, false, true)
 }
